@@ -2226,20 +2226,21 @@ package goatlang
 //@
 //@ func (*intMap).init
 //@   property C12 C03
-//@   axioms POW2
+//@   axioms POW2 COUNT
 //@   requires m != nil && isPow2(size) && size >= 16
 //@   modifies fields(m)
 //@   allocates elems(intMapPair)
 //@   nopanic
 //@   ensures shape(*m) && m.total == total && m.size == size && isfresh(arr(m.pairs))
 //@   ensures#empty forall j int :: 0 <= j && j < size ==> m.pairs[j].distance == 0
+//@   ensures#wf rh(*m) && count(*m) == 0
 //@
 //@ func newIntMap
 //@   property C12 C03
-//@   axioms POW2
+//@   axioms POW2 COUNT
 //@   allocates elems(intMapPair)
 //@   nopanic
-//@   ensures shape(result) && result.total == 0 && isfresh(arr(result.pairs)) && result.size >= 2*alloc
+//@   ensures wfIM(result) && result.total == 0 && isfresh(arr(result.pairs)) && result.size >= 2*alloc
 //@   ensures#empty forall j int :: 0 <= j && j < result.size ==> result.pairs[j].distance == 0
 //@ func newIntMap loop 0
 //@   invariant isPow2(size) && size >= 16
@@ -2257,6 +2258,10 @@ package goatlang
 //@   |   && (forall j int, t int :: 0 <= j && j < len(m.pairs) && 0 <= t && t < len(m.pairs) && m.pairs[j].distance != 0 && m.pairs[t].distance != 0 && m.pairs[j].key == m.pairs[t].key ==> j == t)
 //@ spec has(m intMap, k int) bool
 //@   def exists j int :: 0 <= j && j < len(m.pairs) && m.pairs[j].distance != 0 && m.pairs[j].key == k
+//@ spec holdsIn(s []intMapPair, n int, k int, x Value) bool
+//@   def exists j int :: 0 <= j && j < n && s[j].distance != 0 && s[j].key == k && s[j].value == x
+//@ spec hasIn(s []intMapPair, n int, k int) bool
+//@   def exists j int :: 0 <= j && j < n && s[j].distance != 0 && s[j].key == k
 //@ spec holds(m intMap, k int, x Value) bool
 //@   def exists j int :: 0 <= j && j < len(m.pairs) && m.pairs[j].distance != 0 && m.pairs[j].key == k && m.pairs[j].value == x
 //@
@@ -2299,14 +2304,20 @@ package goatlang
 //@   def exists e int :: 0 <= e && e < len(m.pairs) && m.pairs[e].distance == 0
 //@ func (*intMap).insert
 //@   property C12 C03
-//@   axioms POW2
-//@   requires m != nil && rh(*m) && hasEmpty(*m) && !has(*m, key) && i == key
+//@   axioms POW2 COUNT
+//@   requires#wf m != nil && rh(*m) && i == key
+//@   requires#room hasEmpty(*m)
+//@   requires#absent trig(key) ==> !has(*m, key)
 //@   modifies elems(m.pairs)
 //@   nopanic
 //@   ensures#wf rh(*m)
 //@   ensures#stored trig(key, value) ==> holds(*m, key, value)
 //@   ensures#others forall k2 int, x Value :: trig(k2, x) && k2 != key ==> (holds(*m, k2, x) <==> old(holds(*m, k2, x)))
+//@   ensures#count count(*m) == old(count(*m)) + 1
+//@   ensures#keys forall k2 int :: trig(k2) ==> (has(*m, k2) <==> (old(has(*m, k2)) || k2 == key))
 //@ func (*intMap).insert loop 0
+//@   invariant#keys forall k int :: trig(k) ==> ((has(*m, k) || pair.key == k) <==> (old(has(*m, k)) || k == key))
+//@   invariant#count count(*m) == old(count(*m))
 //@   invariant#view forall k int, x Value :: trig(k, x) ==> ((holds(*m, k, x) || (pair.key == k && pair.value == x)) <==> (old(holds(*m, k, x)) || (k == key && x == value)))
 //@   invariant#bound 1 <= pair.distance && pair.distance <= m.size
 //@   invariant#home (pair.key & m.mask) + pair.distance - 1 == (i & m.mask) || (pair.key & m.mask) + pair.distance - 1 == (i & m.mask) + m.size
@@ -2314,3 +2325,41 @@ package goatlang
 //@   invariant#rh rh(*m)
 //@   invariant#fresh forall j int :: 0 <= j && j < len(m.pairs) && m.pairs[j].distance != 0 ==> m.pairs[j].key != pair.key
 //@   invariant#room hasEmpty(*m)
+//@
+//@ -- cnt(a, lo, hi): the number of occupied slots of backing array a in [lo, hi). Uninterpreted;
+//@ -- COUNT lists the facts about counting that are used (each an elementary induction on hi-lo,
+//@ -- assumed here): range, pigeonhole (with witness cnt$empty), and the effect of one store.
+//@ ghost cnt(a int, lo int, hi int) int
+//@ axiom COUNT
+//@   decl (declare-fun ghost$cnt ((Array Int intMapPair) Int Int) Int)
+//@   decl (declare-fun cnt$empty ((Array Int intMapPair) Int Int) Int)
+//@   decl (declare-fun cnt$occ ((Array Int intMapPair) Int Int) Int)
+//@   smt (forall ((a (Array Int intMapPair)) (lo Int) (hi Int)) (! (and (<= 0 (ghost$cnt a lo hi)) (=> (<= lo hi) (<= (ghost$cnt a lo hi) (- hi lo)))) :pattern ((ghost$cnt a lo hi))))
+//@   smt (forall ((a (Array Int intMapPair)) (lo Int) (hi Int)) (! (=> (and (<= lo hi) (< (ghost$cnt a lo hi) (- hi lo))) (and (<= lo (cnt$empty a lo hi)) (< (cnt$empty a lo hi) hi) (= (intMapPair$distance (select a (cnt$empty a lo hi))) 0))) :pattern ((ghost$cnt a lo hi))))
+//@   smt (forall ((a (Array Int intMapPair)) (lo Int) (hi Int)) (! (=> (> (ghost$cnt a lo hi) 0) (and (<= lo (cnt$occ a lo hi)) (< (cnt$occ a lo hi) hi) (not (= (intMapPair$distance (select a (cnt$occ a lo hi))) 0)))) :pattern ((ghost$cnt a lo hi))))
+//@   smt (forall ((a (Array Int intMapPair)) (j Int) (x intMapPair) (lo Int) (hi Int)) (! (=> (and (<= lo j) (< j hi)) (= (ghost$cnt (store a j x) lo hi) (+ (ghost$cnt a lo hi) (ite (= (intMapPair$distance x) 0) 0 1) (ite (= (intMapPair$distance (select a j)) 0) 0 (- 1))))) :pattern ((ghost$cnt (store a j x) lo hi))))
+//@   smt (forall ((a (Array Int intMapPair)) (lo Int) (hi Int) (hi2 Int)) (! (=> (and (<= lo hi) (= hi2 (+ hi 1))) (= (ghost$cnt a lo hi2) (+ (ghost$cnt a lo hi) (ite (= (intMapPair$distance (select a hi)) 0) 0 1)))) :pattern ((ghost$cnt a lo hi) (ghost$cnt a lo hi2))))
+//@   smt (forall ((a (Array Int intMapPair)) (lo Int) (hi Int) (hi2 Int)) (! (=> (and (<= lo hi) (<= hi hi2)) (<= (ghost$cnt a lo hi) (ghost$cnt a lo hi2))) :pattern ((ghost$cnt a lo hi) (ghost$cnt a lo hi2))))
+//@ spec count(m intMap) int
+//@   def cnt(elemsAt(intMapPair, arr(m.pairs)), off(m.pairs), off(m.pairs) + len(m.pairs))
+//@ -- the full table invariant: robin-hood shape plus the load bound (so an empty slot exists)
+//@ spec wfIM(m intMap) bool
+//@   def rh(m) && m.total == count(m) && m.total <= m.max
+//@
+//@ func (*intMap).resize
+//@   property C12 C03
+//@   axioms POW2 COUNT
+//@   requires m != nil && rh(*m) && m.total == count(*m) && isPow2(size) && m.total < size
+//@   modifies fields(m)
+//@   allocates elems(intMapPair)
+//@   nopanic
+//@   ensures#wf rh(*m) && m.total == count(*m) && m.total == old(m.total) && m.size == ite(size < 16, 16, size)
+//@   ensures#view forall k int, x Value :: trig(k, x) ==> (holds(*m, k, x) <==> old(holds(*m, k, x)))
+//@   ensures#keys forall k int :: trig(k) ==> (has(*m, k) <==> old(has(*m, k)))
+//@ func (*intMap).resize loop 0
+//@   invariant#rh rh(*m) && m.size == size && m != nil
+//@   invariant#hdr m.total == total && total == old(m.total) && pairs == old(m.pairs) && arr(m.pairs) != arr(pairs)
+//@   invariant#oldkept same(elemsAt(intMapPair, arr(pairs)), old(elemsAt(intMapPair, arr(m.pairs))))
+//@   invariant#count count(*m) == cnt(elemsAt(intMapPair, arr(pairs)), off(pairs), off(pairs) + rangeidx)
+//@   invariant#view forall k int, x Value :: trig(k, x) ==> (holds(*m, k, x) <==> holdsIn(pairs, rangeidx, k, x))
+//@   invariant#keys forall k int :: trig(k) ==> (has(*m, k) <==> hasIn(pairs, rangeidx, k))
